@@ -562,7 +562,11 @@ def judge_expmv(ctx, P, params, out_vec, exact, kappa, label="expmv", vec=None, 
         tkind = "t-real" if np.imag(t) == 0 else ("t-imag" if np.real(t) == 0 else "t-complex")
         est = info.get("error") if isinstance(info, dict) else None
         growth = getattr(P, "growth", 0.0)
-        if est is not None and est <= 1.2 * tol * 1.01 and growth > 30:
+        if est == 0.0 and t != 0:
+            # demonstrated mechanism: every step ended in a "happy breakdown" (h < tol, absolute) and the coupling h was dropped,
+            # but its effect on exp(tA)v is of order |t| h, not h
+            key = "value:expmv:happy-breakdown-threshold-ignores-|t|"
+        elif est is not None and est <= 1.2 * tol * 1.01 and growth > 30:
             # demonstrated mechanism: for strongly growing (exp(tA) ~ e^30 and more) problems the accumulated error estimate
             # stays below tol while the true error is orders of magnitude larger
             key = "value:expmv:error-estimate-optimistic:growth>e^30"
